@@ -19,6 +19,7 @@ RULE = (
     "factored: bases = all tables of CT(2,2,1) and CT(1,1,4) x per dtype all injective maps of the <=2 labels of a side into LABq={1,2,128,255,256,65535,65536,70000} within the dtype, applied to "
     "the prediction only, the reference only (uint8/16/32) and both sides (all dtypes) (UNMATCHED: threshold IoU .5 with all three families; threshold Dice at the lowest breakpoint and merge IoU .5 with the both-sides family; MATCHED: joint map); "
     "labels beyond 2^20 ({1048577, 1048581, 7}, all ordered pairs; same / crossed / one side only) on every factored base in uint32; full product pred-map x ref-map on 12 fixed bases (uint8: all three matchers, uint32: threshold IoU .5); generators on G1(4,2)^2 (thorough: + CT(2,2,2), G2(2,2,2)^2): 4 (thorough 8) single-side maps to the top of each dtype range / past the next dtype boundary + all four dtypes with unchanged labels; "
+    "big: 6 segment layouts (no background voxel in the prediction / the reference / both / one label only / reversed label order / background everywhere) with 300 and 70000 voxels, 1-D and 2-D, x all four dtypes + 7 label maps on either side and both, UNMATCHED / MATCHED / SEMANTIC / merge; near ties: two candidates with IoU 1/2 and N/(2N+1), N in {1000, 100000}, x all injective maps of the 3 prediction labels into {1,2,3,top} x 3 reference maps x 4 matchers x uint8/16/32; "
     "SEMANTIC: G2(2,2,2) x 27 refs x 6 label maps x unsigned and signed dtypes x backend {default,cc3d}. thorough adds CT(2,2,2) to the factored family, G2(2,2,2)^2 generators and label 2^24-1. "
     "non-trivial = at least one candidate pair and a label value >= 128 involved; distinct by (base, map, dtype, configuration)"
 )
@@ -36,6 +37,41 @@ FULL_BASES = [
 GEN_MAPS = [("uint8", {1: 255, 2: 254}), ("uint8", {1: 254, 2: 255}), ("uint8", {1: 128, 2: 1}), ("uint16", {1: 256, 2: 255}), ("uint16", {1: 65535, 2: 1}),
             ("uint32", {1: 65536, 2: 65535}), ("uint32", {1: 70000, 2: 65536}), ("uint64", {1: 65536, 2: 70000})]
 SEM_MAPS = [("uint8", {1: 2, 2: 1}), ("uint8", {1: 255, 2: 1}), ("int8", {1: 127, 2: 3}), ("uint16", {1: 256, 2: 65535}), ("int32", {1: 65536, 2: 70000}), ("int64", {1: 70000, 2: 1}), ("uint64", {1: 65535, 2: 65536})]
+
+
+BIG_SIZES = (300, 70000)
+# (pred segments, ref segments) as fractions of the size; labels 1, 2; 0 = background
+BIG_BASES = [
+    ("no background in the prediction", [(1, 0.6), (2, 0.4)], [(1, 0.5), (0, 0.2), (2, 0.3)]),
+    ("no background in the reference", [(0, 0.1), (1, 0.5), (2, 0.3), (0, 0.1)], [(1, 0.55), (2, 0.45)]),
+    ("no background at all", [(1, 0.6), (2, 0.4)], [(1, 0.62), (2, 0.38)]),
+    ("no background, one label only", [(1, 1.0)], [(1, 0.7), (2, 0.3)]),
+    ("background on both sides", [(0, 0.1), (1, 0.5), (2, 0.3), (0, 0.1)], [(0, 0.15), (1, 0.4), (0, 0.1), (2, 0.3), (0, 0.05)]),
+    ("no background, largest label first", [(2, 0.6), (1, 0.4)], [(2, 0.5), (1, 0.5)]),
+]
+BIG_MAPS = [("uint8", {1: 2, 2: 1}), ("uint8", {1: 255, 2: 254}), ("uint8", {1: 128, 2: 255}), ("uint16", {1: 65535, 2: 1}), ("uint16", {1: 256, 2: 65535}), ("uint32", {1: 65536, 2: 70000}), ("uint64", {1: 70000, 2: 65536})]
+NEAR_N = (1000, 100000)
+NEAR_MATCHERS = (["thr", "IOU", 0.3, False], ["thr", "DSC", 0.5, False], ["thr", "IOU", 0.3, True], ["merge", "IOU", 0.3])
+
+
+def _segs_array(segs, size, nd):
+    out = []
+    for k, (lab, frac) in enumerate(segs):
+        n = int(round(frac * size)) if k < len(segs) - 1 else size - len(out)
+        out += [lab] * n
+    a = np.array(out[:size], dtype=np.uint8)
+    if nd == 2:
+        rows = 15 if size == 300 else 250
+        a = a.reshape(rows, size // rows)
+    return a
+
+
+def _near_arrays(N):
+    """reference 1 has 2N voxels; prediction 1 covers its first half exactly (IoU 1/2), prediction 2 its second half plus one
+    voxel outside (IoU N/(2N+1)); a second, separate reference / prediction pair 3-2 of 5 voxels"""
+    pred = [1] * N + [2] * (N + 1) + [0, 0] + [3] * 5 + [0]
+    ref = [1] * (2 * N) + [0] * 3 + [2] * 5 + [0]
+    return np.array(pred, dtype=np.uint8), np.array(ref, dtype=np.uint8)
 
 
 def blocks(tier):
@@ -58,6 +94,16 @@ def blocks(tier):
     n = sc.grid_count((2, 2), 2)
     for lo, hi in sc.ranges(n, 2 if tier == "quick" else 1):
         B.append(("sem", tier, lo, hi))
+    # arrays with more voxels than an 8-bit / 16-bit counter holds, with and without any background voxel
+    for size in BIG_SIZES:
+        for b in range(len(BIG_BASES)):
+            for nd in (1, 2):
+                B.append(("big", size, b, nd))
+    # two candidates whose scores differ only in the 4th..7th decimal, the worse one carrying the smaller / the larger label
+    for N in NEAR_N:
+        for m in range(len(NEAR_MATCHERS)):
+            for dt in ("uint8", "uint16", "uint32"):
+                B.append(("near", N, m, dt))
     if tier == "thorough":
         for lo, hi in sc.ranges(n, 1):
             B.append(("gen", "g2", lo, hi))
@@ -95,6 +141,10 @@ def run_block(block, acc):
                 run_case({"kind": "sem", "pi": i, "ri": j}, acc)
     elif kind == "huge":
         run_case({"kind": "huge", "b": block[1]}, acc)
+    elif kind == "big":
+        run_case({"kind": "big", "size": block[1], "b": block[2], "nd": block[3]}, acc)
+    elif kind == "near":
+        run_case({"kind": "near", "N": block[1], "m": block[2], "dtype": block[3]}, acc)
 
 
 def _low_dsc(model):
@@ -127,7 +177,8 @@ def compare(acc, case, base: Base, itype, m, pred, ref, what, backend="none"):
     acc.step()
     st1, o1, steps = meta.run(itype, mm, backend, pred.copy(), ref.copy())
     c2 = {**case, "variant": what, "itype": itype, "matcher": mm, "backend": backend}
-    tag = f"{itype} {mm} {what}: pred={pred.tolist()} ref={ref.tolist()} dtype={pred.dtype}"
+    show = (lambda a: a.tolist()) if pred.size <= 64 else (lambda a: f"shape {list(a.shape)} run-lengths {sc.arr_to_case(a).get('__rle__', '...')}"[:300])
+    tag = f"{itype} {mm} {what}: pred={show(pred)} ref={show(ref)} dtype={pred.dtype}"
     if st0 == "EXC":
         acc.count("base_raised")
         return
@@ -265,6 +316,46 @@ def run_case(case, acc):
             for dt, mp in SEM_MAPS:
                 P, R = sc.relabel(bp, mp, dt), sc.relabel(br, mp, dt)
                 compare(acc, {**case, **rec, "pred": sc.arr_to_case(P), "ref": sc.arr_to_case(R)}, base, "SEMANTIC", MATCHERS[0], P, R, f"semantic map={mp} dtype={dt}", backend)
+    elif kind == "big":
+        name, ps, rs = BIG_BASES[case["b"]]
+        bp, br = _segs_array(ps, case["size"], case["nd"]), _segs_array(rs, case["size"], case["nd"])
+        acc.case("big", case["size"], case["b"], case["nd"])
+        base = Base(bp, br)
+        rec = {"base_pred": sc.arr_to_case(bp), "base_ref": sc.arr_to_case(br)}
+        acc.sample({"big_base": name, "voxels": case["size"], "ndim": case["nd"], "pred_segments": ps, "ref_segments": rs})
+        ident = {1: 1, 2: 2}
+        for dt in sc.UDT:
+            P, R = bp.astype(dt), br.astype(dt)
+            rc = {**case, **rec, "pred": sc.arr_to_case(P), "ref": sc.arr_to_case(R)}
+            compare(acc, rc, base, "UNMATCHED", MATCHERS[0], P, R, f"{name}: dtype {dt}, labels unchanged")
+            compare(acc, rc, base, "MATCHED", None, P, R, f"{name}: dtype {dt}, labels unchanged")
+            if case["nd"] == 1 or dt in ("uint8", "uint16"):
+                compare(acc, rc, base, "SEMANTIC", MATCHERS[0], P, R, f"{name}: dtype {dt}, labels unchanged", "default")
+        for dt, mp in BIG_MAPS:
+            for side in ("pred", "ref", "both"):
+                P = sc.relabel(bp, mp if side != "ref" else ident, dt)
+                R = sc.relabel(br, mp if side != "pred" else ident, dt)
+                rc = {**case, **rec, "pred": sc.arr_to_case(P), "ref": sc.arr_to_case(R)}
+                compare(acc, rc, base, "UNMATCHED", MATCHERS[0], P, R, f"{name}: {side} map={mp} dtype={dt}")
+                if side == "both":
+                    compare(acc, rc, base, "MATCHED", None, P, R, f"{name}: joint map={mp} dtype={dt}")
+                    compare(acc, rc, base, "UNMATCHED", MATCHERS[2], P, R, f"{name}: {side} map={mp} dtype={dt}")
+    elif kind == "near":
+        bp, br = _near_arrays(case["N"])
+        dt = case["dtype"]
+        m = NEAR_MATCHERS[case["m"]]
+        acc.case("near", case["N"], case["m"], dt)
+        base = Base(bp, br)
+        rec = {"base_pred": sc.arr_to_case(bp), "base_ref": sc.arr_to_case(br)}
+        acc.sample({"near_tie_base": f"N={case['N']}: IoU 1/2 against N/(2N+1)", "matcher": m, "dtype": dt})
+        targets = (1, 2, 3, 255) if dt == "uint8" else (1, 2, 3, 65535) if dt == "uint16" else (1, 2, 3, 70000)
+        rmaps = [{1: 1, 2: 2}, {1: 2, 2: 1}, {1: targets[3], 2: 1}]
+        for pm in sc.injective_maps((1, 2, 3), targets):
+            P = sc.relabel(bp, pm, dt)
+            for rm_ in rmaps:
+                R = sc.relabel(br, rm_, dt)
+                rc = {**case, **rec, "pred": sc.arr_to_case(P), "ref": sc.arr_to_case(R)}
+                compare(acc, rc, base, "UNMATCHED", m, P, R, f"near tie N={case['N']}: pmap={pm} rmap={rm_}")
     elif kind == "huge":
         p, r = FULL_BASES[case["b"]]
         bp, br = np.array(p, dtype=np.uint8), np.array(r, dtype=np.uint8)
